@@ -100,7 +100,7 @@ def _work(name, a):
 def _seq(case, tup, ints=False, keep_tuple=False):
     """the pair arguments (domain, modes, measurement point; the profile 5-tuple) in the container the caller holds them in: a tuple
     (default), a list, a numpy array - `case["_cont"]` selects"""
-    cont = case.get("_cont")
+    cont = case.get("_cont") or case.get("cont")
     whole = False
     if case.get("ints") and not keep_tuple and not ints and all(float(v).is_integer() and abs(v) < 2 ** 31 for v in tup):
         # whole-number coordinates / extents written without a decimal point (a YAML `meas_pt: [45, 21]`, grid indices times an
@@ -117,13 +117,25 @@ def _seq(case, tup, ints=False, keep_tuple=False):
 def real_solve(case, cache=None):
     """Call the real solver with the request."""
     from bldfm.solver import steady_state_transport_solver
-    return steady_state_transport_solver(
-        _work("q", case["q"]), _work("z", case["z"]),
-        _seq(case, tuple(_work("prof%d" % k, p) for k, p in enumerate(case["profiles"])), keep_tuple=True),
-        _seq(case, tuple(case["domain"])), case["levels"], modes=_seq(case, tuple(case["modes"]), ints=True),
-        meas_pt=_seq(case, tuple(case["meas_pt"])), srf_bg_conc=case.get("bg", 0.0),
+    args = dict(q=_work("q", case["q"]), z=_work("z", case["z"]),
+                prof=_seq(case, tuple(_work("prof%d" % k, p) for k, p in enumerate(case["profiles"])), keep_tuple=True),
+                domain=_seq(case, tuple(case["domain"])), levels=case["levels"], modes=_seq(case, tuple(case["modes"]), ints=True),
+                meas_pt=_seq(case, tuple(case["meas_pt"])))
+    # every array handed over is compared with a snapshot afterwards: the caller's arrays (source, grid, profiles, measurement point, level
+    # selection ...) are the caller's - a solve that writes into them changes what the NEXT call with the same objects computes
+    snap = {k: ([np.array(x, copy=True) for x in v] if k == "prof" else np.array(v, copy=True)) for k, v in args.items()
+            if isinstance(v, np.ndarray) or k == "prof"}
+    out = steady_state_transport_solver(
+        args["q"], args["z"], args["prof"], args["domain"], args["levels"], modes=args["modes"],
+        meas_pt=args["meas_pt"], srf_bg_conc=case.get("bg", 0.0),
         footprint=case["footprint"], analytic=case["analytic"], halo=case.get("halo"),
         precision=case["precision"], cache=cache)
+    for k, v in snap.items():
+        now = args[k]
+        same_ = all(np.array_equal(a_, b_) for a_, b_ in zip(now, v)) if k == "prof" else np.array_equal(now, v)
+        if not same_:
+            raise AssertionError("the solver modified its argument `%s` in place (before %r, after %r)" % (k, np.ravel(v if k != "prof" else v[0])[:4].tolist(), np.ravel(now if k != "prof" else now[0])[:4].tolist()))
+    return out
 
 
 def real_solve_canon(case):
@@ -399,6 +411,10 @@ def random_case(rng, small=True, **over):
     case.update(over)
     limit_growth(case)
     case["_kinds"] = dict(halo=hk, levels=lk, meas=mk, prof="uniform" if prof[0][0] == prof[0][-1] else "varying", wind=wk)
+    if rng.random() < 0.3:
+        # the pair arguments (domain, mode counts, measurement point) in the container the caller happens to hold them in
+        case["cont"] = str(rng.choice(["array", "array", "list"]))
+        case["_kinds"]["containers"] = case["cont"]
     if rng.random() < 0.12 and "meas_pt" not in over:
         # whole-metre measurement point handed over as integers (the extents usually are not whole: xmax / 2, the padding, dx stay fractional)
         case["ints"] = str(rng.choice(["py", "np"]))
